@@ -1,4 +1,5 @@
 import Hyeong.Driver.Enc
+import Hyeong.Driver.NumOps
 /-!
 hydrv — the model driver: answers the same one-line operations as harness/ (hyverif) from the
 formal model (`m.` prefix = Hyeong.Model, `s.` prefix = Hyeong.Spec). Imports core-only files.
@@ -19,6 +20,13 @@ def dispatch (f : List String) : String :=
   | ["s.parse", t] => encParsed (specParse (decText t))
   | ["m.parseall", a, n, p] => toHex (parseAll parse (decText a) n.toNat! (decText p).reverse 14695981039346656037).toNat
   | ["s.parseall", a, n, p] => toHex (parseAll specParse (decText a) n.toNat! (decText p).reverse 14695981039346656037).toNat
+  | ["m.num", op, a, b] => mNum op a b
+  | ["s.num", op, a, b] => sNum op a b
+  | ["m.numnew", u, d] => mNumNew u d
+  | ["s.numnew", u, d] => sNumNew u d
+  | ["m.numstr", a] => mNumStr a
+  | ["s.numstr", a] => sNumStr a
+  | ["m.numparse", t] => mNumParse t
   | _ => "BADOP"
 
 partial def loop (h : IO.FS.Stream) (out : IO.FS.Stream) : IO Unit := do
